@@ -37,6 +37,7 @@ import (
 	"github.com/onosproject/onos-lib-go/pkg/logging"
 	baseClient "github.com/openconfig/gnmi/client"
 	"github.com/openconfig/gnmi/proto/gnmi"
+	"google.golang.org/grpc"
 )
 
 func init() {
@@ -420,8 +421,42 @@ func (d *CfgDecor) Watch(ctx context.Context, ch chan<- configapi.ConfigurationE
 
 // ---------------------------------------------------------------------------------------------
 
+// sharedConn is the primitive.Client the stores get: the atomix test client builds a whole new
+// runtime, sidecar service and connection on every Connect — once per store and once per side map
+// of the configuration store — and never releases them; here one connection serves every
+// primitive of the environment and is closed with it.
+type sharedConn struct {
+	c    *test.Client
+	mu   sync.Mutex
+	conn *grpc.ClientConn
+}
+
+func (t *sharedConn) Connect(ctx context.Context) (*grpc.ClientConn, error) {
+	t.mu.Lock()
+	defer t.mu.Unlock()
+	if t.conn != nil {
+		return t.conn, nil
+	}
+	conn, err := t.c.Connect(ctx)
+	if err != nil {
+		return nil, err
+	}
+	t.conn = conn
+	return conn, nil
+}
+
+func (t *sharedConn) closeAll() {
+	t.mu.Lock()
+	defer t.mu.Unlock()
+	if t.conn != nil {
+		_ = t.conn.Close()
+		t.conn = nil
+	}
+}
+
 // Env is one wired environment.
 type Env struct {
+	tracker *sharedConn
 	Spec    Spec
 	Atomix  *test.Client
 	RawTx   transaction.Store
@@ -439,20 +474,22 @@ type Env struct {
 
 // New builds the environment.
 func New(spec Spec) (*Env, error) {
+	slots <- struct{}{}
 	cluster := test.NewClient()
-	cfgs, err := configuration.NewAtomixStore(cluster)
+	tracker := &sharedConn{c: cluster}
+	cfgs, err := configuration.NewAtomixStore(tracker)
 	if err != nil {
 		return nil, err
 	}
-	props, err := proposal.NewAtomixStore(cluster)
+	props, err := proposal.NewAtomixStore(tracker)
 	if err != nil {
 		return nil, err
 	}
-	txs, err := transaction.NewAtomixStore(cluster)
+	txs, err := transaction.NewAtomixStore(tracker)
 	if err != nil {
 		return nil, err
 	}
-	e := &Env{Spec: spec, Atomix: cluster, RawTx: txs, Props: props, Cfgs: cfgs}
+	e := &Env{tracker: tracker, Spec: spec, Atomix: cluster, RawTx: txs, Props: props, Cfgs: cfgs}
 	e.Tx = &TxDecor{Store: txs, Answer: configapi.TransactionStatus_APPLIED}
 	e.Topo = newFakeTopo(spec.Targets)
 	e.Reg = newFakeRegistry(spec.Plugins)
@@ -464,19 +501,29 @@ func New(spec Spec) (*Env, error) {
 	return e, nil
 }
 
-// Close releases the stores.  The atomix test client starts one in-process gRPC service per
-// primitive (also for the configuration store's side maps, created on first use) in a goroutine
-// that calls os.Exit(1) when Serve finds the server already stopped, so a client must not be
-// closed before the goroutines of its latest primitives got to run: closing is deferred by a few
-// seconds (a loaded machine schedules them late).
+// An environment is expensive (about 100 goroutines and 25 MB: one in-process gRPC service per
+// atomix primitive), so the number of live ones is bounded; New blocks until a slot is free.
+var slots = make(chan struct{}, 48)
+
+// Close releases the stores.  The atomix test client starts its in-process gRPC services in
+// goroutines that call os.Exit(1) when Serve finds the server already stopped, so a client must
+// not be closed before the goroutines of its latest services got to run: closing happens a
+// second later, and only after a goroutine spawned at that moment has run as well.
 func (e *Env) Close() {
-	time.AfterFunc(8*time.Second, func() {
+	go func() {
+		time.Sleep(time.Second)
+		ran := make(chan struct{})
+		go func() { close(ran) }()
+		<-ran
+		time.Sleep(50 * time.Millisecond)
 		ctx := context.Background()
 		_ = e.RawTx.Close(ctx)
 		_ = e.Props.Close(ctx)
 		_ = e.Cfgs.Close(ctx)
+		e.tracker.closeAll()
 		e.Atomix.Close()
-	})
+		<-slots
+	}()
 }
 
 // Drive pushes the transaction with the given index through the real transaction and proposal
@@ -492,6 +539,7 @@ func (e *Env) Drive(index configapi.Index, rounds int) (crash string) {
 		_, _ = f()
 	}
 	ctx := context.Background()
+	lastSig := ""
 	for i := 0; i < rounds && crash == ""; i++ {
 		step("transaction reconciler", func() (controller.Result, error) {
 			return e.TxRec.Reconcile(controller.NewID(index))
@@ -507,12 +555,25 @@ func (e *Env) Drive(index configapi.Index, rounds int) (crash string) {
 		if t.Status.Proposals != nil {
 			ids = append(ids, t.Status.Proposals...)
 		}
+		sig := fmt.Sprintf("t%d", t.Version)
 		for _, id := range ids {
 			id := id
 			step("proposal reconciler", func() (controller.Result, error) {
 				return e.PropRec.Reconcile(controller.NewID(id))
 			})
+			if p, err := e.Props.Get(ctx, id); err == nil {
+				sig += fmt.Sprintf(" p%d", p.Version)
+			}
 		}
+		if cs, err := e.Cfgs.List(ctx); err == nil {
+			for _, c := range cs {
+				sig += fmt.Sprintf(" c%d", c.Version)
+			}
+		}
+		if sig == lastSig {
+			return // a whole round changed nothing: quiescent (committed, waiting for a master)
+		}
+		lastSig = sig
 	}
 	return
 }
